@@ -145,7 +145,8 @@ def _impulse(tid, when, vec, frame, planned=False):
 
 def _target_add(eid, when, tid, pos, vel):
     return {
-        "scope": "scenario_step", "scope_instance_id": 0, "start_time": scen.iso(when), "event_type": "target_addition",
+        # the instance id of the scenario-step scope is free (0 is only conventional): 0, 1 and 2 are all used
+        "scope": "scenario_step", "scope_instance_id": tid % 3, "start_time": scen.iso(when), "event_type": "target_addition",
         "tasking_engine_id": eid, "target_agent": scen.target_eci(tid, pos, vel),
     }
 
@@ -155,14 +156,14 @@ def _sensor_add(eid, when, sid, j):
     # (station_keeping_json is "" for non-spacecraft platforms) - an incidental defect outside C01, noted in DESIGN.md
     pos, vel = [0.0, 9000.0 + 200.0 * j, 50.0 * j], [-4.5, 0.0, 4.5]
     return {
-        "scope": "scenario_step", "scope_instance_id": 0, "start_time": scen.iso(when), "event_type": "sensor_addition",
+        "scope": "scenario_step", "scope_instance_id": sid % 3, "start_time": scen.iso(when), "event_type": "sensor_addition",
         "tasking_engine_id": eid, "sensor_agent": scen.space_sensor(sid, pos, vel, kind="optical"),
     }
 
 
 def _removal(eid, when, aid, kind):
     return {
-        "scope": "scenario_step", "scope_instance_id": 0, "start_time": scen.iso(when), "event_type": "agent_removal",
+        "scope": "scenario_step", "scope_instance_id": aid % 3, "start_time": scen.iso(when), "event_type": "agent_removal",
         "tasking_engine_id": eid, "agent_id": aid, "agent_type": kind,
     }
 
